@@ -494,6 +494,11 @@ func convertSliceElements(expr ast.Expr, lhsSliceT reflect.Type, rhsV reflect.Va
 					return nilValue, newStringError(expr, "invalid type conversion")
 				}
 			}
+			if value.Type() == lhsT {
+				// already of the element type: append the slice itself, like append() does
+				lhsV = reflect.Append(lhsV, value)
+				continue
+			}
 			newSlice, err := appendSlice(expr, reflect.MakeSlice(lhsT, 0, value.Len()), value)
 			if err != nil {
 				return nilValue, err
